@@ -5,6 +5,8 @@ package main
 // reference model of frame isolation.
 
 import (
+	"crypto/ecdsa"
+	"crypto/sha256"
 	"fmt"
 	"math/big"
 	"sort"
@@ -54,18 +56,33 @@ const (
 	eSelfdestruct
 	eTstore
 	nEffects
+	// eAuth (outside the main product, used by the FA families): AUTH then AUTHCALL; Node.A picks
+	// signature (valid / none / wrong) x value (0 / >0) x authorizedNonce (current / wrong) x
+	// callee (succeeds / reverts / does not exist)
+	eAuth         = nEffects
+	nAuthVariants = 36
 )
 
 var kindName = []string{"CALL", "CALLV", "CALLCODE", "DELEGATECALL", "STATICCALL", "CREATE", "CREATE2"}
 var kindClass = []string{"call", "call", "callcode", "delegatecall", "staticcall", "create", "create"}
 var outcomeName = []string{"return", "revert", "invalid", "oog", "deposit-oog", "deposit-toobig"}
-var effectName = []string{"none", "sstore", "log", "value", "nonce", "selfdestruct", "tstore"}
+var effectName = []string{"none", "sstore", "log", "value", "nonce", "selfdestruct", "tstore", "auth"}
+
+type authVar struct{ sig, value, wrongNonce, callee int }
+
+func authVariant(a int) authVar { return authVar{a % 3, (a / 3) % 2, (a / 6) % 2, (a / 12) % 3} }
+
+func (v authVar) String() string {
+	return fmt.Sprintf("sig=%s,value=%d,nonce=%s,callee=%s", []string{"valid", "none", "wrong"}[v.sig], v.value,
+		[]string{"current", "wrong"}[v.wrongNonce], []string{"succeeds", "reverts", "nonexistent"}[v.callee])
+}
 
 // Node is one frame.  The root is always entered by evm.Call (kind CALL, no value).
 type Node struct {
 	K int     `json:"k"`
 	O int     `json:"o"`
 	E int     `json:"e"`
+	A int     `json:"a,omitempty"`
 	C []*Node `json:"c,omitempty"`
 
 	idx    int
@@ -74,6 +91,7 @@ type Node struct {
 	addr   common.Address // call kinds: the contract holding this frame's code
 	blob   []byte         // create kinds: init code
 	caddr  common.Address // create kinds: address derived by the model
+	ctx    common.Address // address the frame ran as (set by the model)
 	// model bookkeeping
 	ran  bool
 	fail string // "" | outcome | static
@@ -82,7 +100,11 @@ type Node struct {
 func (n *Node) isCreate() bool { return n.K == kCreate || n.K == kCreate2 }
 
 func (n *Node) String() string {
-	s := fmt.Sprintf("%s/%s/%s", kindName[n.K], effectName[n.E], outcomeName[n.O])
+	eff := effectName[n.E]
+	if n.E == eAuth {
+		eff = "auth(" + authVariant(n.A).String() + ")"
+	}
+	s := fmt.Sprintf("%s/%s/%s", kindName[n.K], eff, outcomeName[n.O])
 	if len(n.C) > 0 {
 		var cs []string
 		for _, c := range n.C {
@@ -94,7 +116,7 @@ func (n *Node) String() string {
 }
 
 func (n *Node) clone() *Node {
-	m := &Node{K: n.K, O: n.O, E: n.E}
+	m := &Node{K: n.K, O: n.O, E: n.E, A: n.A}
 	for _, c := range n.C {
 		m.C = append(m.C, c.clone())
 	}
@@ -109,7 +131,11 @@ func fixedAddr(tag byte, i int) common.Address {
 }
 
 var (
-	originAddr = common.HexToAddress("0x2f4f09b722a6e5b77be17c9a99c785fa7035a09f")
+	originAddr = common.HexToAddress("0x2f4f09b722a6e5b77be17c9a99c785fa7035a09f") // part (b)
+	treeOrigin = fixedAddr(0x90, 0)                                                // part (a): harness-funded
+	calleeOK   = fixedAddr(0xE8, 0)
+	calleeRev  = fixedAddr(0xE9, 0)
+	calleeNone = fixedAddr(0xEA, 0)
 	sinkAddr   = fixedAddr(0xA0, 0)
 	benAddr    = fixedAddr(0xB0, 0)
 	helperAddr = fixedAddr(0xC0, 0)
@@ -126,11 +152,69 @@ const (
 	execHeight    = uint64(2)
 )
 
-func mark(idx int) uint64      { return 0x100 + uint64(idx) }
-func ownSlot(idx int) uint64   { return 0x10 + uint64(idx) }
-func valueOf(idx int) int64    { return 1 << uint(idx) }
-func callVValue(idx int) int64 { return 1 << uint(8+idx) }
-func endowment(idx int) int64  { return 1 << uint(30-idx) }
+func mark(idx int) uint64             { return 0x100 + uint64(idx) }
+func ownSlot(idx int) uint64          { return 0x10 + uint64(idx) }
+func valueOf(idx int) int64           { return 1 << uint(idx) }
+func callVValue(idx int) int64        { return 1 << uint(8+idx) }
+func endowment(idx int) int64         { return 1 << uint(30-idx) }
+func authValue(idx int) int64         { return 1 << uint(16+idx) }
+func sigStore(idx int) common.Address { return fixedAddr(0x51, idx) }
+
+// harness-owned authorising keys, one per frame index
+var authKeys = map[int]*ecdsa.PrivateKey{}
+
+func authKey(idx int) *ecdsa.PrivateKey {
+	if k := authKeys[idx]; k != nil {
+		return k
+	}
+	h := sha256.Sum256([]byte(fmt.Sprintf("c12-auth-key-%d", idx)))
+	k, err := crypto.ToECDSA(h[:])
+	if err != nil {
+		panic(err)
+	}
+	authKeys[idx] = k
+	return k
+}
+
+func authority(idx int) common.Address { return crypto.PubkeyToAddress(authKey(idx).PublicKey) }
+
+var sigCache = map[string][]byte{}
+
+// authInput: (v, r, s, commit) as opAuth reads it; the signature is over
+// keccak(0x03 || chainId || invoker || commit); wrong = signed for another commit.
+func authInput(idx int, invoker common.Address, wrong bool) []byte {
+	key := fmt.Sprintf("%d|%x|%v", idx, invoker.Bytes(), wrong)
+	if b := sigCache[key]; b != nil {
+		return b
+	}
+	var commit, signed [32]byte
+	copy(commit[:], crypto.Keccak256([]byte("c12 commit")))
+	signed = commit
+	if wrong {
+		signed[0] ^= 1
+	}
+	msg := make([]byte, 97)
+	msg[0] = 0x03
+	cid := common.GetChainId(execHeight).Bytes()
+	copy(msg[33-len(cid):33], cid)
+	copy(msg[65-20:65], invoker.Bytes())
+	copy(msg[65:], signed[:])
+	sig, err := crypto.Sign(crypto.Keccak256(msg), authKey(idx))
+	if err != nil {
+		panic(err)
+	}
+	in := make([]byte, 128)
+	in[31] = sig[64] + 27
+	copy(in[32:64], sig[0:32])
+	copy(in[64:96], sig[32:64])
+	copy(in[96:128], commit[:])
+	sigCache[key] = in
+	return in
+}
+
+func calleeOf(v authVar) common.Address {
+	return []common.Address{calleeOK, calleeRev, calleeNone}[v.callee]
+}
 func runtimeOf(idx int) []byte { return []byte{0x00, 0xC0 + byte(idx)} }
 func logTopics(idx int) []uint64 {
 	var t []uint64
@@ -191,6 +275,16 @@ func (b *builder) gen(n *Node) []byte {
 	case eSelfdestruct:
 		p.Push(0).Push(0).Push(0).Push(0).PushN(20, helperAddr.Bytes()).PushN(8, allGas).Op(vm.DELEGATECALL)
 		p.PushLabel("sdok").Op(vm.JUMPI).Op(vm.INVALID).Label("sdok")
+	case eAuth:
+		v := authVariant(n.A)
+		if v.sig != 1 {
+			p.Push(128).Push(0).PushN(2, u16(0x200)).PushN(20, sigStore(n.idx).Bytes()).Op(vm.EXTCODECOPY)
+			p.Push(128).PushN(2, u16(0x200)).PushN(20, authority(n.idx).Bytes()).Op(vm.AUTH, vm.POP)
+		}
+		p.Push(ownSlot(n.idx)).PushN(2, u16(0x2c0)).Op(vm.MSTORE)
+		// AUTHCALL(authorizedNonce, gas, addr, value, valueExt, argsOffset, argsLength, retOffset, retLength)
+		p.Push(0).Push(0).Push(32).PushN(2, u16(0x2c0)).Push(0).Push(int64(v.value) * authValue(n.idx))
+		p.PushN(20, calleeOf(v).Bytes()).Push(0).Push(v.wrongNonce).Op(vm.AUTHCALL, vm.POP)
 	}
 	type fix struct {
 		at   int
@@ -334,6 +428,7 @@ func (m *model) transfer(from, to common.Address, v int64) {
 // exec runs frame n in context ctx; false = the frame failed (the caller restores its snapshot).
 func (m *model) exec(n *Node, ctx common.Address, ro bool) bool {
 	n.ran = true
+	n.ctx = ctx
 	if n.E != eNone {
 		if ro {
 			n.fail = "static"
@@ -380,6 +475,27 @@ func (m *model) effect(n *Node, ctx common.Address) {
 		m.owner[a] = n.idx
 		na := m.w.acct(a)
 		na.exists, na.nonce, na.code = true, 1, "00"
+	case eAuth:
+		// AUTHCALL outside a static context: the authorising account's nonce bump is an action of
+		// the invoking frame (like the creator's bump of CREATE); the callee is a frame of its own
+		v := authVariant(n.A)
+		val := int64(v.value) * authValue(n.idx)
+		if v.sig != 0 || v.wrongNonce != 0 || m.w.acct(treeOrigin).bal < val {
+			return
+		}
+		au := m.w.acct(authority(n.idx))
+		au.nonce++
+		au.exists = true
+		switch v.callee {
+		case 0:
+			m.transfer(treeOrigin, calleeOK, val)
+			m.w.acct(calleeOK).st[ownSlot(n.idx)] = 0x55
+		case 2:
+			if val != 0 {
+				m.transfer(treeOrigin, calleeNone, val)
+				m.w.acct(calleeNone).touched = true
+			}
+		}
 	case eSelfdestruct:
 		c := m.w.acct(ctx)
 		m.w.acct(benAddr).bal += c.bal
@@ -562,26 +678,44 @@ func runTree(root *Node) (res treeResult) {
 	}
 	st.SetCode(helperAddr, asm.New().PushN(20, benAddr.Bytes()).Op(vm.SELFDESTRUCT).Bytes())
 	st.SetCode(burnerAddr, []byte{byte(vm.INVALID)})
-	r0 := st.IntermediateRoot(true)
+	st.SetBalance(treeOrigin, big.NewInt(1<<50))
+	hasAuth := false
+	for _, n := range nodes {
+		hasAuth = hasAuth || n.E == eAuth
+	}
+	if hasAuth {
+		st.SetCode(calleeOK, asm.New().Push(0x55).Push(0).Op(vm.CALLDATALOAD, vm.SSTORE, vm.STOP).Bytes())
+		st.SetCode(calleeRev, asm.New().Push(0x66).Push(0).Op(vm.CALLDATALOAD, vm.SSTORE).Revert(0, 0).Bytes())
+	}
 
 	// model (its initial world is what the implementation shows after the set-up)
 	slots := []uint64{0}
 	for i := range nodes {
 		slots = append(slots, ownSlot(i))
 	}
-	base := append(append([]common.Address{}, callAddrs...), sinkAddr, benAddr, helperAddr, burnerAddr, originAddr)
+	base := append(append([]common.Address{}, callAddrs...), sinkAddr, benAddr, helperAddr, burnerAddr, treeOrigin)
+	if hasAuth {
+		base = append(base, calleeOK, calleeRev, calleeNone)
+		for _, n := range nodes {
+			if n.E == eAuth {
+				base = append(base, authority(n.idx))
+			}
+		}
+	}
 	init := observe(st, base, slots, false)
 	m := &model{w: &mworld{a: map[common.Address]*macct{}, tr: map[common.Address]map[uint64]uint64{}}, owner: map[common.Address]int{}}
 	for a, o := range init {
 		x := m.w.acct(a)
 		x.exists, x.nonce, x.code = o.Exist, o.Nonce, o.Code
 		bal, _ := new(big.Int).SetString(o.Bal, 10)
-		if !bal.IsInt64() {
-			bal = big.NewInt(1 << 62) // the funded origin: never spends in part (a)
-		}
 		x.bal = bal.Int64()
 		for s, v := range o.St {
 			x.st[s] = v
+		}
+	}
+	for _, n := range nodes {
+		if n.E == eAuth {
+			m.owner[authority(n.idx)] = n.idx
 		}
 	}
 	initWorld := m.w.copy()
@@ -595,12 +729,27 @@ func runTree(root *Node) (res treeResult) {
 		created = append(created, a)
 	}
 	sort.Slice(created, func(i, j int) bool { return string(created[i].Bytes()) < string(created[j].Bytes()) })
-	univ = append(univ, created...)
+	for _, a := range created {
+		dup := false
+		for _, b := range base {
+			dup = dup || a == b
+		}
+		if !dup {
+			univ = append(univ, a)
+		}
+	}
 
-	// implementation
+	// implementation.  The AUTH signatures bind the invoking address, which the model has just
+	// derived (created contracts): they are handed to the frames through code-only accounts.
+	for _, n := range nodes {
+		if v := authVariant(n.A); n.E == eAuth && n.ran && v.sig != 1 {
+			st.SetCode(sigStore(n.idx), authInput(n.idx, n.ctx, v.sig == 2))
+		}
+	}
+	r0 := st.IntermediateRoot(true)
 	st.Prepare(treeTxHash, common.Hash{}, 0)
-	evm := node.NewEVM(st, originAddr, execHeight, rootGas)
-	_, _, retLogs, err := evm.Call(vm.AccountRef(originAddr), root.addr, nil, rootGas, big.NewInt(0))
+	evm := node.NewEVM(st, treeOrigin, execHeight, rootGas)
+	_, _, retLogs, err := evm.Call(vm.AccountRef(treeOrigin), root.addr, nil, rootGas, big.NewInt(0))
 	res.ok = err == nil
 	if err != nil {
 		res.errText = err.Error()
@@ -649,20 +798,19 @@ func runTree(root *Node) (res treeResult) {
 				add("state", fmt.Sprintf("%s %s: code=%s want %s", ph, name, g.Code, wCode), ownerOf(a), g.Code != "")
 			}
 			wBal := fmt.Sprint(w.bal)
-			if a == originAddr {
-				wBal = init[a].Bal // the origin spends nothing in part (a)
-			}
 			if phase == 0 && g.Bal != wBal {
 				// every transfer amount is a distinct power of two: the lowest differing bit
-				// names a frame involved (value effect / CALL value / create endowment)
+				// names a frame involved (value effect / CALL value / AUTHCALL value / create endowment)
 				f := -1
 				gb, _ := new(big.Int).SetString(g.Bal, 10)
-				if d := new(big.Int).Sub(gb, big.NewInt(w.bal)); a != originAddr && d.Sign() != 0 {
+				if d := new(big.Int).Sub(gb, big.NewInt(w.bal)); d.Sign() != 0 {
 					switch b := int(d.Abs(d).TrailingZeroBits()); {
 					case b < 8:
 						f = b
 					case b < 16:
 						f = b - 8
+					case b < 24:
+						f = b - 16
 					case b <= 30:
 						f = 30 - b
 					}
